@@ -1399,9 +1399,37 @@ def c18_cli(ctx, res):
                 res.violate("C18/cli/behaviour-depends-on-flag/" + which.replace(" ", "-"),
                             "a program using none of the four mnemonics (at %s) gives a different %s under `lace %s` with `-f stack`" % (orig, which, sub),
                             {"flag_off": off.brief(), "flag_on": on.brief()})
+    _write(os.path.join(d, "regs.asm"), "jsr f\nreg\nhalt\nf add r1 r1 #3\nret\n")
+    # plain programs whose *data* looks like opcode 0xD (never executed), from source and from the object file
+    _write(os.path.join(d, "ddata.asm"), "ld r0 v\nld r1 w\nadd r0 r0 r1\nputn\nhalt\nv .fill xDEAD\nw .fill xD000\nu .fill #-9000\ndead .fill xD401\n")
+    lace(ctx, ["compile", "ddata.asm", "ddata.lc3"], cwd=d)
+    lace(ctx, ["compile", "ddata.asm", "ddata.obj"], cwd=d)
+    for target in ("ddata.asm", "ddata.lc3", "ddata.obj"):
+        for mode in ([], ["--minimal"]):
+            on = lace(ctx, ["run", target] + mode + ["-f", "stack"], cwd=d, stdin=b"")
+            off = lace(ctx, ["run", target] + mode, cwd=d, stdin=b"")
+            res.evaluations += 1
+            res.cls("l2:plain_program_with_0xD_data:" + target.rsplit(".", 1)[1])
+            if (on.rc, on.out, on.err) != (off.rc, off.out, off.err) or off.rc != 0:
+                which = "exit status" if off.rc != on.rc or off.rc != 0 else ("stdout" if off.out != on.out else "stderr")
+                res.violate("C18/cli/behaviour-depends-on-flag/" + which.replace(" ", "-"),
+                            "a program whose data words have a 0xD nibble (never executed) gives a different %s under `lace run %s` with and without `-f stack` (or fails)" % (which, target),
+                            {"flag_off": off.brief(), "flag_on": on.brief()})
+    # the four mnemonics offered to the assembler through the debugger's `eval`, flag off: refused
+    # with a diagnostic naming the feature, in both output modes, and the session goes on
+    for mn in ("push r0", "POP R1", "call f", "Rets"):
+        for mode in ([], ["--minimal"]):
+            r = lace(ctx, ["debug", "regs.asm"] + mode + ["--command", "eval %s;echo alive;exit" % mn], cwd=d, stdin=b"")
+            res.evaluations += 1
+            res.cls("l2:extension_mnemonic_through_eval")
+            text = (r.err + r.out).decode("utf-8", "replace")
+            if r.rc != 0 or "alive" not in text:
+                res.violate("C18/cli/eval-ends-session", "`eval %s` without the flag ended the session (exit %s)" % (mn, r.rc), {"run": r.brief()})
+            elif "stack" not in text.replace("regs.asm", ""):
+                res.violate("C18/cli/diagnostic-does-not-name-feature", "`eval %s` without the flag is refused without naming the `stack` feature%s" % (mn, " (--minimal)" if mode else ""),
+                            {"run": r.brief()})
     # a plain program that prints its registers (REG) after moving R7, in both output modes
     regp = "jsr f\nreg\nhalt\nf add r1 r1 #3\nret\n"
-    _write(os.path.join(d, "regs.asm"), regp)
     for mode in ([], ["--minimal"]):
         for sub, extra in (("run", []), ("debug", ["--command", "step;registers;continue"])):
             on = lace(ctx, [sub, "regs.asm"] + mode + extra + ["-f", "stack"], cwd=d, stdin=b"")
@@ -1418,7 +1446,7 @@ def c18_cli(ctx, res):
     watch_history(ctx, res, cp, "C18", 61, ext_sources=True)
     res.require(["l2:ext_program", "l2:plain_program", "l2:raw_0xD", "l2:plain_program_run", "l2:plain_program_run_r7_changed",
                  "watch_recheck", "watch_recheck_with_stack_flag", "l2:extension_program_under:debug", "l2:plain_program_prints_registers", "l2:raw_0xD_under_debugger",
-                 "l2:plain_program_at_top_of_user_memory"], "L2")
+                 "l2:plain_program_at_top_of_user_memory", "l2:plain_program_with_0xD_data:lc3", "l2:extension_mnemonic_through_eval"], "L2")
 
 
 # ------------------------------------------------------------------ C09 (L2 sample)
